@@ -10,6 +10,7 @@ import Sth.Model.GC
 import Sth.Model.Fsck
 import Driver.Img
 import Sth.Model.Translate
+import Sth.Model.Upgrade
 
 namespace Driver.Seq
 open Sth Driver
@@ -34,6 +35,12 @@ structure St where
   acctLastRes : String := ""
   acctSince : List String := []      -- mutating ops since the last acct view
   gcDirty : Bool := false            -- a primary GC cycle started with unflushed index updates and no store flush completed since
+  -- C10: a legacy store was written; the model is synchronised from the directory dump after the upgrading open
+  legacyRecs : List (Bytes × Bytes) := []
+  legacyOffsets : List Nat := []
+  legacyDropped : List Nat := []     -- indexes of records that must not be readable afterwards (freed, bad offset, gone)
+  legacyBad : List Nat := []
+  needSync : Bool := false
   -- C11 progress, from the implementation's own views
   c11Marked : Bool := false
   c11DeadP : List Nat := []          -- non-current primary files without live data at the mark
@@ -140,6 +147,30 @@ def cmp (op model impl : String) : List Msg := if model = impl then [] else [Msg
 def prop (op expected impl : String) : List Msg :=
   if expected = impl then [] else [Msg.prop s!"{op}: map specification says [{expected}] implementation returned [{impl}]"]
 
+/-- C07: the Lean fsck evaluated on the REAL directory bytes and the real live bucket table -/
+def fsckStep (st : St) (l : Line) : St × List Msg :=
+  let ra := resArgs l.res
+  match st.store.mem with
+  | none => (st, [Msg.corr "fsck: model store is closed"])
+  | some m =>
+    let d := st.store.disk
+    let im := Driver.Img.parseImg (ra.get "img")
+    let live : NMap Nat := ((ra.get "buckets").splitOn ",").foldl (fun acc kv => match kv.splitOn ":" with
+      | [b, p] => acc.set (b.toNat?.getD 0) (p.toNat?.getD 0)
+      | _ => acc) []
+    let hdrBad := (if im.badIdxHdr then ["index header does not parse"] else []) ++ (if im.badPriHdr then ["primary header does not parse"] else [])
+    -- entries that were already corrupt in a legacy input (offset beyond the old primary) are preserved by an upgrade that
+    -- needs no remapping and dropped lazily on access: they are the input's corruption, not the store's
+    let total := (st.legacyRecs.map fun (k, v) => 4 + k.length + v.length).sum
+    let ignore := st.legacyBad.map fun i => total + 17 + i
+    let viol := hdrBad ++ fsck m.kind im.disk live ignore
+    -- recogniser of known finding D11: a primary GC cycle ran since the last completed store flush while index updates were unflushed
+    let known := if st.gcDirty then " [known:D11 gc-handover-with-dirty-index]" else ""
+    let modelViol := fsck m.kind d (m.buckets.filter (·.2 ≠ 0)) ignore
+    (st, viol.map (fun v => Msg.prop s!"fsck after {st.acctLastOp}: {v}{known}") ++
+         (if modelViol.isEmpty ∨ !viol.isEmpty then [] else [Msg.corr s!"fsck: the model's own files are inconsistent: {modelViol}"]) ++
+         [Msg.flag "fsck"] ++ (if live.length ≥ 2 then [Msg.flag "fsck-2-buckets"] else []))
+
 def stepCore (st : St) (l : Line) : St × List Msg :=
   let ra := resArgs l.res
   let rhead := ((l.res.splitOn " ").headD "")
@@ -147,6 +178,11 @@ def stepCore (st : St) (l : Line) : St × List Msg :=
   | "open" =>
     let c : Cfg := { kind := if l.args.get "kind" = "cid" then .cid else .mh, bits := l.args.nat "bits",
                      ifs := l.args.nat "ifs", pfs := l.args.nat "pfs", imm := l.args.get "imm" = "1" }
+    if st.needSync then
+      -- the upgrading open is not modelled at byte level: oracle only; the model is synchronised at the next `fsck`
+      ({ st with cfg := c, everOpened := true },
+        (if rhead = "ok" then [] else [Msg.prop s!"opening a legacy store failed: {l.res}"]) ++ [Msg.flag "upgrade"])
+    else
     let torder := parseOrder (ra.get "torder")
     let (d, r, tkeys) := openStoreT c st.store.disk torder
     let translated : Bool := !tkeys.isEmpty || (match st.store.disk.ihdr with | some h => c.bits != 0 && h.bits != c.bits | none => false)
@@ -165,12 +201,63 @@ def stepCore (st : St) (l : Line) : St × List Msg :=
         (if (e = .wrongIndexFileSize ∨ e = .wrongPrimaryFileSize) ∧ rhead ≠ exp then
            [Msg.prop s!"open with a mismatching file-size limit must be refused with {exp}; implementation returned {l.res}"] else []) ++
         [Msg.flag "open-error", Msg.flag ("open-" ++ exp)])
+  | "legacy" =>
+    let recs := ((l.args.get "recs").splitOn ",").filterMap fun kv => match kv.splitOn ":" with
+      | [k, v] => some ((fromHex k).getD [], (fromHex v).getD [])
+      | _ => none
+    let idxs := fun (k : String) => ((l.args.get k).splitOn ",").filterMap (·.toNat?)
+    let dropped := idxs "freed" ++ idxs "bad" ++ idxs "gone"
+    let spec' : SpecMap := ((List.range recs.length).zip recs).foldl (fun sp (i, (k, v)) =>
+      if dropped.contains i then sp else sp.set ((indexKeyOf .mh k).getD []) k v) []
+    ({ st with spec := spec', legacyRecs := recs, legacyOffsets := ((ra.get "offsets").splitOn ",").filterMap (·.toNat?),
+               legacyDropped := dropped, legacyBad := idxs "bad", needSync := true, store := {} },
+      (if rhead = "ok" then [] else [Msg.corr s!"legacy: {l.res}"]) ++ [Msg.flag "legacy"] ++
+      (if (idxs "freed").isEmpty then [] else [Msg.flag "legacy-freelist"]) ++ (if (idxs "bad").isEmpty then [] else [Msg.flag "legacy-bad-offset"]))
   | "rmsnap" => ({ st with store := { st.store with disk := { st.store.disk with snap := none } } }, [Msg.flag "reopen-rescan"])
   | "badsnap" =>
     let d := st.store.disk
     ({ st with store := { st.store with disk := { d with snap := d.snap.map fun s => { s with size := 16, nz := s.nz.filter (·.1 < 2) } } } },
       [Msg.flag "reopen-badsnap"])
+  | "fsck" =>
+    if !st.needSync then fsckStep st l else
+    -- synchronise the model from the real directory bytes (post-upgrade), then run the fsck on them
+    let im := Driver.Img.parseImg (ra.get "img")
+    match openStoreR st.cfg im.disk with
+    | (d', .ok m') =>
+      let live := ((ra.get "buckets").splitOn ",").filter (· ≠ "")
+      let mine := (m'.buckets.filter (·.2 ≠ 0)).map fun (b, p) => s!"{b}:{p}"
+      let st' := { st with store := { disk := d', mem := some m' }, needSync := false }
+      let (st'', msgs) := fsckStep st' l
+      (st'', (if live = mine then [] else [Msg.corr s!"after upgrade: live bucket table [{ra.get "buckets"}] differs from the table a rescan of the same files gives [{",".intercalate mine}]"]) ++ msgs)
+    | (_, .error e) => (st, [Msg.corr s!"model cannot open the upgraded directory: {openErrStr e}"])
+  | "chunks" =>
+    -- C10 pure core against the real files: chunk sizes and remapped locations
+    let pfs := if st.cfg.pfs = 0 then defaultMax else st.cfg.pfs
+    let recBytes := st.legacyRecs.map fun (k, v) => le32 (k.length + v.length) ++ k ++ v
+    let expP := natList (chunkFileSizes pfs recBytes)
+    let sizes := chunkFileSizes pfs recBytes
+    let locs := (ra.get "locs").splitOn ","
+    -- the index is asked per key: the location of the key's current record (the last one that is not freed/bad/gone)
+    -- (a record with a corrupt offset is still an index entry; freed and gone records are not)
+    let total := (recBytes.map List.length).sum
+    let noRemap : Bool := match sizes with | [] => true | [one] => one < pfs | _ => false
+    let curOf := fun (key : Bytes) => (((List.range st.legacyRecs.length).zip st.legacyRecs).filter fun (i, (k, _)) =>
+      k = key ∧ (!st.legacyDropped.contains i ∨ st.legacyBad.contains i)).getLast?
+    let expLocs := st.legacyRecs.map fun (key, _) =>
+      match curOf key with
+      | some (i, (k, v)) =>
+        if st.legacyBad.contains i then
+          -- dropped by the remapping; without remapping (one chunk below the limit) the corrupt entry is preserved as it was
+          (if noRemap then s!"{total + 17 + i}:{k.length + v.length}" else "none")
+        else
+        (match remapOffset 0 pfs sizes (st.legacyOffsets.getD i 0) with
+         | some off => s!"{off}:{k.length + v.length}"
+         | none => "none")
+      | none => "none"
+    (st, cmp "chunks.psizes" expP (ra.get "psizes") ++ cmp "chunks.locs" (",".intercalate expLocs) (",".intercalate locs) ++
+      [Msg.flag "chunks"] ++ (if sizes.length ≥ 2 then [Msg.flag "multi-chunk"] else []))
   | "disk" =>
+    if st.needSync then (st, []) else
     let da := resArgs l.res
     let sized : String → List (Nat × Nat) := fun s => (s.splitOn ",").filterMap fun e => match e.splitOn ":" with
       | n :: sz :: _ => match n.toNat?, sz.toNat? with
@@ -366,20 +453,6 @@ def stepCore (st : St) (l : Line) : St × List Msg :=
                 [Msg.prop (tag ++ s!"locations {superseded} stopped being current but {recorded} were recorded on the freelist")]))
       ({ st with acctCur := some cur, acctFl := fl, acctEver := (st.acctEver ++ fl).eraseDups, acctSince := [], c11LastAcct := l.res }, corr ++ props ++ [Msg.flag "acct"] ++
         (if fl.isEmpty then [] else [Msg.flag "freelist-nonempty"]))
-    | "fsck" =>
-      -- C07: the Lean fsck evaluated on the REAL directory bytes and the real live bucket table
-      let im := Driver.Img.parseImg (ra.get "img")
-      let live : NMap Nat := ((ra.get "buckets").splitOn ",").foldl (fun acc kv => match kv.splitOn ":" with
-        | [b, p] => acc.set (b.toNat?.getD 0) (p.toNat?.getD 0)
-        | _ => acc) []
-      let hdrBad := (if im.badIdxHdr then ["index header does not parse"] else []) ++ (if im.badPriHdr then ["primary header does not parse"] else [])
-      let viol := hdrBad ++ fsck m.kind im.disk live
-      -- recogniser of known finding D11: a primary GC cycle ran since the last completed store flush while index updates were unflushed
-      let known := if st.gcDirty then " [known:D11 gc-handover-with-dirty-index]" else ""
-      let modelViol := fsck m.kind d (m.buckets.filter (·.2 ≠ 0))
-      (st, viol.map (fun v => Msg.prop s!"fsck after {st.acctLastOp}: {v}{known}") ++
-           (if modelViol.isEmpty ∨ !viol.isEmpty then [] else [Msg.corr s!"fsck: the model's own files are inconsistent: {modelViol}"]) ++
-           [Msg.flag "fsck"] ++ (if live.length ≥ 2 then [Msg.flag "fsck-2-buckets"] else []))
     | "sizes" =>
       let ms := s!"index={indexStorage d} primary={primaryStorage m.kind d} freelist={freelistStorage d}"
       let total := ra.nat "index" + ra.nat "primary" + ra.nat "freelist"
